@@ -103,9 +103,21 @@ func TestVerifyDifferential(t *testing.T) {
 		s.Eval()
 		s.Class(c.Params().Name)
 		want := stdecdsa.Verify(&sk.PublicKey, digest, r, sv)
-		var got bool
-		if o := rt.GuardLite(func() { got = patecdsa.Verify(&pk.PublicKey, digest, r, sv) }); o.Panic != nil {
+		r0, s0, d0 := new(big.Int).Set(r), new(big.Int).Set(sv), append([]byte{}, digest...)
+		var got, again bool
+		if o := rt.GuardLite(func() {
+			got = patecdsa.Verify(&pk.PublicKey, digest, r, sv)
+			again = patecdsa.Verify(&pk.PublicKey, digest, r, sv) // the same signature object, a second time
+		}); o.Panic != nil {
 			rt.Fail(t, "C13/verify-panic", "fork Verify panicked on r=%x s=%x: %v", r, sv, o.Panic)
+			return
+		}
+		if r.Cmp(r0) != 0 || sv.Cmp(s0) != 0 || !bytes.Equal(digest, d0) {
+			rt.Fail(t, "C13/verify-mutates-arguments", "fork Verify changed its arguments: r %x -> %x, s %x -> %x", r0, r, s0, sv)
+			return
+		}
+		if again != got {
+			rt.Fail(t, "C13/verify-not-repeatable", "verifying the same (r,s) object twice gives %v then %v (crypto/ecdsa: %v)", got, again, want)
 			return
 		}
 		if want {
